@@ -56,7 +56,9 @@ def segment_lookup(ctx, prog):
     string; conversion to an index is only the fallback after the lookup failed)."""
     gp = prog.func(M + '.get_path')
 
-    class SubRaises(Quiet):
+    from rules.common import PrivInl
+
+    class SubRaises(PrivInl):
         def sub_raises(self, walker, op, st):
             return ('KeyError', 'IndexError', 'TypeError') if op.kind == 'sub_load' else ()
     w, paths = paths_of(prog, gp, model=SubRaises(prog))
@@ -89,7 +91,7 @@ def immutable_rebuild(ctx, prog):
     returned value is <new_parent's class>(<values>)."""
     de = prog.func(M + '.default_exit')
     from rules.common import TryRaises
-    w, paths = paths_of(prog, de, model=TryRaises(prog, de))
+    w, paths = paths_of(prog, de, model=TryRaises(prog, de, helpers=True))
     n = 0
     newp = de.params[3] if len(de.params) > 3 else 'new_parent'
     for p in paths:
@@ -156,7 +158,8 @@ def run(ctx):
            detail='kinds traversed: %s' % sorted(kinds))
     # default_exit
     dx = prog.func(M + '.default_exit')
-    w, paths = paths_of(prog, dx)
+    from rules.common import PrivInl
+    w, paths = paths_of(prog, dx, model=PrivInl(prog))
     for p in paths:
         if p.kind != 'return':
             continue
